@@ -47,6 +47,7 @@ invariant (b *Buffer)
 
 func (b *Buffer) tryGrowByReslice(n int) (m int, ok bool)
   requires n >= 0
+  modifies b, mem(b.buf) if false
   ensures ok <==> n <= old(cap(b.buf)) - old(len(b.buf))
   ensures ok ==> m == old(len(b.buf)) && len(b.buf) == old(len(b.buf)) + n && cap(b.buf) == old(cap(b.buf)) && ref(b.buf) == old(ref(b.buf)) && off(b.buf) == old(off(b.buf))
   ensures !ok ==> b.buf == old(b.buf)
@@ -56,6 +57,11 @@ func (b *Buffer) tryGrowByReslice(n int) (m int, ok bool)
 
 func (b *Buffer) grow(n int) (m int)
   requires n >= 0 && n <= 1099511627776
+  -- grow only reslices or moves the contents to a new array: the bytes are written by its callers
+  modifies b, mem(b.buf) if false
+  -- without spare capacity the n new bytes are in a new array (C12/C13: a copy that has been detached from the
+  -- storage it shares with its original never writes there)
+  ensures [C12,C13] n > 0 && old(cap(b.buf)) == old(len(b.buf)) ==> fresh(b.buf)
   ensures m == old(len(b.buf)) && len(b.buf) == old(len(b.buf)) + n
   ensures b.validUntil == old(b.validUntil) && b.mode == old(b.mode) && b.markerOpen == old(b.markerOpen)
   ensures sameBytes(b.buf, old(b.buf), old(len(b.buf)))
@@ -84,6 +90,9 @@ func (b *Buffer) startRedactable()
 
 func (b *Buffer) endRedactable()
   requires b.markerOpen && b.validUntil == len(b.buf)
+  -- the closing marker goes into the spare capacity if there is any, otherwise into a new array
+  modifies b, mem(b.buf) if cap(b.buf) > len(b.buf)
+  ensures ref(b.buf) == old(ref(b.buf)) || fresh(b.buf)
   requires WF(b.buf, len(b.buf), true) && LS(b.buf, len(b.buf)) && clean(b.buf, len(b.buf))
   ghost gl = len(b.buf) before "p, ok := b.tryGrowByReslice(m.EndLen)"
   ghost ga = b.buf before "p, ok := b.tryGrowByReslice(m.EndLen)"
@@ -104,16 +113,20 @@ func (b *Buffer) startWrite()
 
 func (b *Buffer) escapeToEnd(breakNewLines bool)
   requires inv(b)
+  -- copy-on-write: what needs escaping is rewritten into a new array
+  modifies b, mem(b.buf) if false
   requires [C01,C03] breakNewLines <==> b.mode == UnsafeEscaped
   requires b.mode == SafeRaw ==> b.validUntil == len(b.buf)
   ensures b.mode == old(b.mode) && b.markerOpen == old(b.markerOpen) && b.validUntil == len(b.buf)
   ensures inv(b)
   ensures [C01] clean(b.buf, len(b.buf))
   ensures [C13] memUnchanged()
-  ensures b.buf == old(b.buf) || fresh(b.buf)
+  ensures (b.buf == old(b.buf) && cap(b.buf) == old(cap(b.buf))) || fresh(b.buf)
 
 func (b *Buffer) finalize()
   requires inv(b)
+  modifies b, mem(b.buf) if cap(b.buf) > len(b.buf)
+  ensures ref(b.buf) == old(ref(b.buf)) || fresh(b.buf)
   ensures inv(b)
   ensures b.mode == old(b.mode) && !b.markerOpen && b.validUntil == len(b.buf)
   ensures [C13] kept(b.buf)
@@ -173,8 +186,10 @@ func (b *Buffer) GetMode() (m OutputMode)
 func (b *Buffer) Reset()
   ensures [C01,C13] len(b.buf) == 0 && b.validUntil == 0 && b.mode == UnsafeEscaped && !b.markerOpen
 
+-- the accessors are read-only also for the storage the buffer shares with its by-value copies: not a byte of an
+-- existing array is written (C13), so an operand shared by concurrent print calls is only read (C12)
 func (b *Buffer) Len() (n int)
-  modifies mem(b.buf)
+  modifies nothing
   ghost gl = len(b.buf) at entry
   ghost ga = b.buf at entry
   assert sameBytes(b.buf, ga, gl) at exit
@@ -199,18 +214,20 @@ func (b *Buffer) TakeRedactableString() (r m.RedactableString)
   ensures [C03] LS(r, len(r))
 
 func (b Buffer) RedactableBytes() (r m.RedactableBytes)
-  modifies mem(b.buf)
+  modifies nothing
+  -- the result is the caller's: it shares no storage with the buffer, whose later writes cannot change it
+  ensures [C01,C13] fresh(r)
   ensures [C01] WF(r, len(r), false)
   ensures [C01] b.mode != SafeRaw ==> clean(r, len(r))
   ensures [C13] kept(b.buf)
   ensures [C03] LS(r, len(r))
 
 func (b Buffer) String() (r string)
-  modifies mem(b.buf), rxre, rxsrc, rxsrcl, rxrepl, rxrepll, rxres, rxresl
+  modifies rxre, rxsrc, rxsrcl, rxrepl, rxrepll, rxres, rxresl
   ensures [C13] kept(b.buf)
 
 func (b Buffer) RedactableString() (r m.RedactableString)
-  modifies mem(b.buf)
+  modifies nothing
   ensures [C01] WF(r, len(r), false)
   ensures [C01] b.mode != SafeRaw ==> clean(r, len(r))
   ensures [C13] kept(b.buf)
